@@ -269,4 +269,42 @@ theorem recover_crashed_front_write (img0 img : Image) (size : Nat) (o : Opts) (
     hnd hexp
 
 
+/-- **A crashed open re-establishes the clean representation.**  Under the hypotheses of
+`recover_crashed_device_journalled` about the data area, the image the replay leaves again *represents* a
+tiled disk (the old one with the journalled runs masked), tiled by the surviving records, with every marker
+complete — the hypotheses (`Rep`, `TiledBy`, `MarksClean`) that `recover_clean_image` and the commit
+theorems start from.  So "represents a tiled disk with complete markers" is an invariant of
+transaction ; crash ; open, not only of transaction ; commit. -/
+theorem crashed_open_restores_clean_rep {v total : Nat} {info : Gen → RecMeta} (h64 : total < 2 ^ 64)
+    (extents co : List (Nat × Nat)) (p p1 : JPos) (io1 : List IoEv) (img0 img : Image) (d0 : Disk) (L : List Rec)
+    (hne : extents.isEmpty = false) (hco : coalesceExtents extents = some co)
+    (hio : replayIo p extents = .ok (io1, p1))
+    (hrep : Rep img0 v FEOX_DATA_START_BLOCK total info d0) (ht : TiledBy d0 total L FEOX_DATA_START_BLOCK)
+    (htot0 : total ≤ img0.size) (htot : total ≤ img.size)
+    (hes : ∀ r ∈ extents, FEOX_DATA_START_BLOCK ≤ r.1 ∧ r.1 + r.2 ≤ total ∧ Aligned L r.1 (r.1 + r.2))
+    (hagree : ∀ q, FEOX_DATA_START_BLOCK ≤ q → ¬ inExt extents q → blockAt img q = blockAt img0 q)
+    (hclean0 : ∀ p r, FEOX_DATA_START_BLOCK ≤ p → p < total → ¬ inExt extents p → d0 p = .mark r →
+      rd (slice (blockAt img0 p) 18 1) = RETIREMENT_COMPLETE ∧ (r > 1 → tailsComplete img0 p r = true))
+    (hspan : ∀ p r, FEOX_DATA_START_BLOCK ≤ p → p < total → ¬ inExt extents p → d0 p = .mark r →
+      ∀ q, p ≤ q → q < p + r → ¬ inExt extents q) :
+    Rep (applyIo img io1) v FEOX_DATA_START_BLOCK total info (maskRuns d0 (co.map toRun)) ∧
+    TiledBy (maskRuns d0 (co.map toRun)) total (filterRuns L (co.map toRun)) FEOX_DATA_START_BLOCK ∧
+    MarksClean (applyIo img io1) FEOX_DATA_START_BLOCK total (maskRuns d0 (co.map toRun)) := by
+  obtain ⟨hruns, hdisj, hcov⟩ := coalesceExtents_spec L FEOX_DATA_START_BLOCK total extents co hco hes
+  have hagree' : ∀ q, FEOX_DATA_START_BLOCK ≤ q → ¬ inRuns (co.map toRun) q → blockAt img q = blockAt img0 q :=
+    fun q hq hout => hagree q hq (fun h => hout ((hcov q).mpr h))
+  obtain ⟨hrepF, htF, _⟩ := replay_open_on_bytes h64 extents co p p1 io1 img0 img d0 L hne hco hio hrep ht htot0 htot hruns hdisj hagree'
+  refine ⟨hrepF, htF, ?_⟩
+  apply marksClean_replayed h64 (co.map toRun) img0 img (applyIo img io1) d0 ?_ htot ?_ hagree'
+    (fun p r a b hout => hclean0 p r a b (fun h => hout ((hcov p).mpr h)))
+    (fun p r a b hout hl q c d hin => hspan p r a b (fun h => hout ((hcov p).mpr h)) hl q c d ((hcov q).mp hin))
+    (replayIo_blocks img hne hco hio (fun r hr => by have := (hruns r hr).2.2.1; omega))
+  · intro r hr
+    obtain ⟨e, he, rfl⟩ := List.mem_map.mp hr
+    obtain ⟨a, b, c, _⟩ := hruns e he
+    exact ⟨by simp only [toRun]; omega, b, c⟩
+  · rw [List.pairwise_map]
+    exact hdisj.imp (fun h => by simpa [toRun] using h)
+
+
 end Feox.Fmt
